@@ -449,28 +449,28 @@ func c04scenarios() []*c04scenario {
 	}
 	var out []*c04scenario
 	// A: sign facts only (VoteSignFact path), suffrage known: honest, conflicting, non-member and foreign-key votes
-	out = append(out, &c04scenario{name: "signfacts", n: 3, th: 67, known: true, depth: [2]int{4, 6}, events: []c04ev{
+	out = append(out, &c04scenario{name: "signfacts", n: 3, th: 67, known: true, depth: [2]int{4, 7}, events: []c04ev{
 		vote("n0", p1, "A", false, ""), vote("n1", p1, "A", false, ""), vote("n2", p1, "A", false, ""), vote("n2", p1, "B", false, ""), vote("n1", p1, "B", false, ""),
 		vote("x", p1, "A", false, ""), vote("f", p1, "A", false, ""),
 		vote("n0", p2, "A", false, ""), vote("n1", p2, "A", false, ""), vote("n2", p2, "A", false, ""),
 		{kind: "count"}, {kind: "setlast", p: p1, maj: true}, {kind: "setlast", p: p2, maj: true},
 	}})
 	// B: ballots (Vote path) arriving before the suffrage is known, with embedded valid / non-member voteproofs
-	out = append(out, &c04scenario{name: "ballots-unknown-suffrage", n: 3, th: 67, known: false, depth: [2]int{4, 6}, events: []c04ev{
+	out = append(out, &c04scenario{name: "ballots-unknown-suffrage", n: 3, th: 67, known: false, depth: [2]int{4, 7}, events: []c04ev{
 		vote("n0", p1, "A", false, "acc:32"), vote("n1", p1, "A", false, "acc:32"), vote("n2", p1, "A", false, "xacc:32"), vote("n2", p1, "B", false, "acc:32"),
 		vote("x", p1, "A", false, "acc:32"), vote("f", p1, "A", false, "acc:32"),
 		{kind: "known"}, {kind: "count"}, {kind: "setlast", p: P(32, 0, true), maj: true},
 		vote("n0", p2, "A", false, "init:33.0"), vote("n1", p2, "A", false, "init:33.0"), vote("n2", p2, "A", false, "init:33.0"),
 	}})
 	// B2: the same ballots with the suffrage known
-	out = append(out, &c04scenario{name: "ballots-known-suffrage", n: 3, th: 67, known: true, depth: [2]int{4, 6}, events: []c04ev{
+	out = append(out, &c04scenario{name: "ballots-known-suffrage", n: 3, th: 67, known: true, depth: [2]int{4, 7}, events: []c04ev{
 		vote("n0", p1, "A", false, "acc:32"), vote("n1", p1, "A", false, "acc:32"), vote("n2", p1, "A", false, "xacc:32"), vote("n2", p1, "B", false, "acc:32"),
 		vote("x", p1, "A", false, "acc:32"), vote("f", p1, "A", false, "acc:32"),
 		{kind: "count"}, {kind: "setlast", p: P(32, 0, true), maj: true},
 		vote("n0", p2, "A", false, "init:33.0"), vote("n1", p2, "A", false, "init:33.0"), vote("n2", p2, "A", false, "init:33.0"),
 	}})
 	// C: four members, ballots with an expel of n3 (fully signed / signed by one node only), the expelled node voting, suffrage-confirm ballots
-	out = append(out, &c04scenario{name: "expels", n: 4, th: 67, known: true, depth: [2]int{4, 6}, events: []c04ev{
+	out = append(out, &c04scenario{name: "expels", n: 4, th: 67, known: true, depth: [2]int{4, 7}, events: []c04ev{
 		vote("n0", p1, "E", false, "acc:32", "n3/n0,n1,n2"), vote("n1", p1, "E", false, "acc:32", "n3/n0,n1,n2"), vote("n2", p1, "E", false, "acc:32", "n3/n0,n1,n2"),
 		vote("n0", p1, "E", false, "acc:32", "n3/n0"),
 		vote("n3", p1, "A", false, "acc:32"), vote("n1", p1, "A", false, "acc:32"), vote("n2", p1, "B", false, "acc:32"),
@@ -478,7 +478,7 @@ func c04scenarios() []*c04scenario {
 		vote("n0", p1, "A", true, "iexp:33.0:n3"), vote("n1", p1, "A", true, "iexp:33.0:n3"), vote("n2", p1, "A", true, "iexp:33.0:n3"),
 	}})
 	// D: two members, threshold 100, four stage points over two heights and two rounds, draws, stale votes
-	out = append(out, &c04scenario{name: "multi-point", n: 2, th: 100, known: true, depth: [2]int{4, 6}, events: []c04ev{
+	out = append(out, &c04scenario{name: "multi-point", n: 2, th: 100, known: true, depth: [2]int{4, 7}, events: []c04ev{
 		vote("n0", p1, "A", false, ""), vote("n1", p1, "A", false, ""), vote("n1", p1, "B", false, ""),
 		vote("n0", p2, "A", false, "init:33.0"), vote("n1", p2, "A", false, "init:33.0"),
 		vote("n0", p3, "A", false, "draw:33.0"), vote("n1", p3, "A", false, "draw:33.0"), vote("n1", p3, "B", false, "draw:33.0"),
